@@ -49,35 +49,11 @@ theorem aymcBody_isNone (A : PAlg P) (pos k item : Nat) (np pp : P) :
         rcases Bool.eq_false_or_eq_true (A.le np pp) with h4 | h4 <;>
         by_cases h5 : pos < k <;> simp [h1, h2, h3, h4, h5]
 
-theorem ipaBody_cases (O : POps P) (item : Nat) (np m : P) :
-    Generated.PQ.ipaBody O item np m = none ∨ Generated.PQ.ipaBody O item np m = some true := by
-  simp only [Generated.PQ.ipaBody]
-  repeat' split
-  all_goals simp
-
-theorem ipaBody_isSome (O : POps P) (item : Nat) (np m : P) :
-    (Generated.PQ.ipaBody O item np m).isSome = (decide (0 < item) && O.le np m) := by
-  simp only [Generated.PQ.ipaBody, CmpOp.nat, POps.cmp]
-  by_cases h2 : item = 0
-  · simp [h2]
-  · have : 0 < item := by omega
-    rcases Bool.eq_false_or_eq_true (O.le np m) with h3 | h3 <;> simp [h2, h3, this]
-
 theorem fcSkip_eq (a b : Nat) : Generated.PQ.fcSkip a b = (a == b + 1) := by
   simp [Generated.PQ.fcSkip, CmpOp.nat]
 
-theorem rrSkip_eq (a b : Nat) : Generated.PQ.rrSkip a b = (a == b + 1) := by
-  simp [Generated.PQ.rrSkip, CmpOp.nat]
-
 theorem aymcDefault_eq : Generated.PQ.aymcDefault = true := rfl
-theorem ipaDefault_eq : Generated.PQ.ipaDefault = false := rfl
 theorem rootIndex_eq : Generated.PQ.rootIndex = 0 := rfl
-
-theorem restoreGuard_eq (O : POps P) (p m mn : P) (ipa : Bool) (hmn : O.lt p mn = false) :
-    Generated.PQ.restoreGuard O p m mn ipa =
-      if O.le p m then (if ipa then .stop else .save) else .descend := by
-  simp only [Generated.PQ.restoreGuard, POps.cmp, hmn]
-  rcases Bool.eq_false_or_eq_true (O.le p m) with h | h <;> cases ipa <;> simp [h]
 
 theorem queueLt_eq (O : POps P) (a b : P) : Generated.PQ.queueLt O a b = !(O.le a b) := by
   simp [Generated.PQ.queueLt, POps.cmp, POps.lt]
@@ -123,16 +99,5 @@ theorem areYouMyChild_eq (A : PAlg P) (s : Struct P) (c : List Nat) (k : Nat) (p
     simp [h, this]
   · have : n = 0 := by omega
     simp [this]
-
-theorem isParentAround_eq (O : POps P) (s : Struct P) (c : List Nat) (m : P) :
-    isParentAround O s c m = (cands O s c).any (fun y => O.le y.1 m) := by
-  unfold isParentAround
-  rw [ipaDefault_eq, loopRet_any _ (fun p => ipaBody_cases _ _ _ _)]
-  simp only [cands, List.any_filterMap]
-  congr 1
-  funext pos
-  rw [ipaBody_isSome]
-  generalize c.getD pos 0 = n
-  by_cases h : 0 < n <;> simp [h]
 
 end Pcfg
